@@ -40,6 +40,12 @@ enum Status {
     Running,
     WantLock(usize),
     CondWait(usize, usize),
+    /// sleeping (e.g. between two polls): runs again only when nobody else can
+    Sleeping,
+    /// waiting on a condvar with a timeout: woken by a notification, or - when nobody else can run - by its timeout
+    TimedWait(usize, usize),
+    /// woken up, can run
+    Ready,
     Finished,
 }
 
@@ -72,6 +78,8 @@ struct State {
     /// lock-order edges (site held -> site wanted) with the thread names that produced them
     order_edges: BTreeMap<(String, String), BTreeSet<String>>,
     events: u64,
+    /// per thread: was the last timed wait ended by a notification
+    notified: Vec<bool>,
     /// critical-region bookkeeping for the "non-trivial" rule: did a switch happen while the
     /// switched-out thread held a lock
     preempted_inside_region: u64,
@@ -83,12 +91,18 @@ fn pick(st: &mut State) {
     let mut enabled: Vec<usize> = vec![];
     for (i, s) in st.threads.iter().enumerate() {
         match s {
-            Status::NotStarted => enabled.push(i),
+            Status::NotStarted | Status::Ready => enabled.push(i),
             Status::WantLock(l) if !st.owner.contains_key(l) => enabled.push(i),
             _ => {}
         }
     }
     if enabled.is_empty() {
+        // time passes only when nobody can run: wake a sleeper
+        if let Some(t) = st.threads.iter().position(|s| matches!(s, Status::Sleeping | Status::TimedWait(..))) {
+            st.current = Some(t);
+            st.last_running = Some(t);
+            return;
+        }
         st.current = None;
         if st.threads.iter().any(|s| *s != Status::Finished) {
             // nobody can run: circular wait (or a wait nobody will ever end)
@@ -224,12 +238,27 @@ fn on_event(ev: Event) {
                 pick(st);
                 must_block = true;
             }
+            EventKind::TimedWaitBegin => {
+                st.lock_sites.entry(ev.cv).or_insert_with(|| format!("{}:{}", ev.site.file().rsplit('/').next().unwrap_or(""), ev.site.line()));
+                st.notified[tid] = false;
+                st.threads[tid] = Status::TimedWait(ev.cv, ev.lock);
+                pick(st);
+                must_block = true;
+            }
             EventKind::WaitEnd => {}
             EventKind::NotifyAll | EventKind::NotifyOne => {
                 for s in st.threads.iter_mut() {
                     if let Status::CondWait(cv, l) = s {
                         if *cv == ev.cv {
                             *s = Status::WantLock(*l);
+                        }
+                    }
+                }
+                for i in 0..st.threads.len() {
+                    if let Status::TimedWait(cv, _) = st.threads[i] {
+                        if cv == ev.cv {
+                            st.threads[i] = Status::Ready;
+                            st.notified[i] = true;
                         }
                     }
                 }
@@ -242,9 +271,46 @@ fn on_event(ev: Event) {
     }
 }
 
+/// A controlled thread gives way until no other thread can run (models sleeping between periodic actions).
+pub fn sleep_point() {
+    let (slot, tid) = match LOGICAL.with(|l| l.get()) {
+        Some(t) => t,
+        None => return,
+    };
+    {
+        let mut g = SLOT[slot].state.lock().unwrap_or_else(|e| e.into_inner());
+        if let Some(st) = g.as_mut() {
+            st.threads[tid] = Status::Sleeping;
+            pick(st);
+        }
+    }
+    SLOT[slot].cv.notify_all();
+    block_until_chosen(slot, tid);
+}
+
+/// Are all other controlled threads of this run finished?
+pub fn others_finished() -> bool {
+    let (slot, tid) = match LOGICAL.with(|l| l.get()) {
+        Some(t) => t,
+        None => return true,
+    };
+    let g = SLOT[slot].state.lock().unwrap_or_else(|e| e.into_inner());
+    g.as_ref().map_or(true, |st| st.threads.iter().enumerate().all(|(i, s)| i == tid || *s == Status::Finished))
+}
+
+fn was_notified() -> bool {
+    let (slot, tid) = match LOGICAL.with(|l| l.get()) {
+        Some(t) => t,
+        None => return false,
+    };
+    let g = SLOT[slot].state.lock().unwrap_or_else(|e| e.into_inner());
+    g.as_ref().map_or(false, |st| st.notified[tid])
+}
+
 pub fn install() {
     teos::verif::sync::set_observer(Some(Observer {
         event: on_event,
+        was_notified,
         virtual_condvars: true,
     }));
 }
@@ -277,6 +343,7 @@ pub fn run_with<'a>(slot: usize, bodies: Vec<(String, Box<dyn FnOnce() + Send + 
             threads: vec![Status::NotStarted; n],
             names: bodies.iter().map(|b| b.0.clone()).collect(),
             held: vec![vec![]; n],
+            notified: vec![false; n],
             choices: choices.to_vec(),
             serial,
             ..Default::default()
